@@ -883,7 +883,45 @@ func (rw *rewriter) realCall(ce *ast.CallExpr) bool {
 			return false
 		}
 	}
+	if sel, ok := ast.Unparen(ce.Fun).(*ast.SelectorExpr); ok && purePkgs[rw.pkgOf(sel.X)] {
+		return false // cannot block, lock or reach instrumented code
+	}
 	return true
+}
+
+// purePkgs are standard packages whose functions compute a value from their
+// arguments: a call of one of them between a probe and the access it announces
+// cannot block or yield.
+var purePkgs = map[string]bool{"bytes": true, "strings": true, "unicode/utf8": true, "unicode": true, "strconv": true, "math": true}
+
+// sliceReads returns the package-level slice variables that stmt reads (index,
+// slice, len, range operand ...) when nothing in the statement can block
+// before the read.
+func (rw *rewriter) sliceReads(stmt ast.Stmt, hdr []ast.Node) (out []*ast.Ident) {
+	seen := map[string]bool{}
+	for _, h := range hdr {
+		if h == nil || reflect.ValueOf(h).IsNil() || rw.hasRealCall(h) {
+			continue
+		}
+		ast.Inspect(h, func(x ast.Node) bool {
+			switch tx := x.(type) {
+			case *ast.FuncLit:
+				return false
+			case *ast.BinaryExpr:
+				if tx.Op == token.LAND || tx.Op == token.LOR {
+					return false // conditional evaluation
+				}
+			case *ast.Ident:
+				if v, ok := rw.info.Uses[tx].(*types.Var); ok && !v.IsField() && v.Pkg() == rw.pkg.Types && v.Parent() == v.Pkg().Scope() &&
+					rw.isSlice(tx) && !seen[tx.Name] && rw.sharedSliceExpr(tx, stmt) {
+					seen[tx.Name] = true
+					out = append(out, tx)
+				}
+			}
+			return true
+		})
+	}
+	return
 }
 
 func (rw *rewriter) hasRealCall(n ast.Node) (found bool) {
@@ -1126,6 +1164,9 @@ func (rw *rewriter) withMapProbes(list []ast.Stmt, quiet bool, fn string) []ast.
 		}
 		for _, m := range rw.mapReads(s, hdr, skip) {
 			out = append(out, rw.probe("MapR", m, s, fn))
+		}
+		for _, id := range rw.sliceReads(s, hdr) {
+			out = append(out, rw.varProbe("VarR", id, s, fn))
 		}
 		out = append(out, s)
 	}
